@@ -1111,9 +1111,27 @@ impl IceTransport {
     pub fn start(&self, remote: IceParameters) -> Result<()> {
         self.start_gathering()?;
         self.start_keepalive();
-        {
+        let unchanged = {
             let mut params = self.inner.remote_parameters.lock();
+            let unchanged = params.as_ref().is_some_and(|p| {
+                p.username_fragment == remote.username_fragment && p.password == remote.password
+            });
             *params = Some(remote);
+            unchanged
+        };
+        // A renegotiation that keeps the remote ICE credentials is not an ICE
+        // restart: an established transport keeps its selected pair, so no check
+        // would ever move it out of `Checking` again, and keepalives as well as
+        // consent-loss detection only run in `Connected`/`Disconnected`.
+        if unchanged
+            && matches!(
+                *self.inner.state.borrow(),
+                IceTransportState::Connected
+                    | IceTransportState::Completed
+                    | IceTransportState::Disconnected
+            )
+        {
+            return Ok(());
         }
         if let Err(e) = self.inner.state.send(IceTransportState::Checking) {
             debug!("start: failed to set state to Checking: {}", e);
